@@ -7,9 +7,9 @@ from vlib.sx import Pair
 META = {
     "id": "C16",
     "level": "proof",
-    "technique": "Coq theorems (canon_first_occurrence, canon_iff_renaming, canon_instantiate_canon, ucanon_order_preserving, ucanon_roundtrip, ucanon_roundtrip_refuted) over Gallina models of Canonicalizer / instantiate_canonical / u_canonicalize / UniverseMap + differential correspondence on scripted real InferenceTables, and the property itself evaluated on the implementation's outputs (renamed copies, merged classes, changed universes, round trips)",
+    "technique": "Coq theorems (canon_first_occurrence, canon_iff_renaming, canon_instantiate_canon, ucanon_order_preserving, ucanon_roundtrip, ucanon_roundtrip_refuted, invert_gives_up, invert_no_placeholders) over Gallina models of Canonicalizer / instantiate_canonical / u_canonicalize / UniverseMap / invert + differential correspondence on scripted real InferenceTables, and the property itself evaluated on the implementation's outputs (renamed copies, merged classes, changed universes, round trips)",
     "level_text": "Machine-checked proofs (Coq 8.16, axiom-free) for all terms and all tables of the Gallina model: canonicalization = resolve through the table, number the unbound classes by first occurrence, replace; equal canonical forms iff universe/kind-preserving injective renaming; instantiate-then-canonicalize is the identity on canonical forms; the universe map is strictly monotone in both directions and map_from_canonical undoes u_canonicalize for all three placeholder kinds. The model is tied to /repo on every run: a script builds a real InferenceTable (universes, variables, prior relate calls), the table is dumped through read-only probes, and canonicalize / u_canonicalize / map_from_canonical / instantiate_canonical+canonicalize / the universe map are compared with the model evaluated in Coq; independently the property is evaluated on the implementation alone.",
-    "level_note": "Trusted: Coq kernel; hand-written models coq/Infer/{Canon,UCanon}.v (tied by correspondence on generated cases of bounded size only); harness conversion sexp<->chalk_ir and the table dump (hook H5 verif_universe_of_var + public probe_var / inference_var_root). Const types are opaque in the model (usize in ChalkIr). Fuel: statements are about runs that do not exhaust it (the check uses fuel 64 >> number of variables). canon_iff_renaming '=>' needs inference nodes used at one kind each (well_kinded_infer); the generator guarantees it.",
+    "level_note": "Trusted: Coq kernel; hand-written models coq/Infer/{Canon,UCanon,Invert}.v (tied by correspondence on generated cases of bounded size only); harness conversion sexp<->chalk_ir and the table dump (hook H5 verif_universe_of_var + public probe_var / inference_var_root). Const types are opaque in the model (usize in ChalkIr). Fuel: statements are about runs that do not exhaust it (the check uses fuel 64 >> number of variables). canon_iff_renaming '=>' needs inference nodes used at one kind each (well_kinded_infer); the generator guarantees it.",
     "design_ref": "DESIGN.md section 4 C16",
     "assumptions": ["const types are closed (usize), as produced by ChalkIr lowering; the model does not fold them",
                     "panics are compared as panic/no-panic only",
@@ -75,16 +75,16 @@ class CGen(irgen.IrGen):
         return self._noinfer(super().const, binders)
 
 
-KIND_CHOICES = [("T", "General")] * 5 + [("T", "Integer"), ("T", "FloatVar"), ("L",), ("L",), ("C",), ("C",)]
+KIND_CHOICES = [("T", "General")] * 6 + [("T", "Integer"), ("T", "FloatVar"), ("L",), ("L",), ("L",), ("C",), ("C",)]
 
 
 def gen_case(r, depth, free_bound=False):
     """-> dict(nu, kinds, univ, rels [(a, b)], term)"""
     nu = r.randrange(4)
-    nv = r.choice([0, 1, 2, 3, 3, 4, 4, 5, 6])
+    nv = r.choice([0, 1, 2, 3, 4, 4, 5, 5, 6, 7])
     kinds = [r.choice(KIND_CHOICES) for _ in range(nv)]
     univ = [r.randrange(nu + 3) if r.random() < 0.15 else r.randrange(nu + 1) for _ in range(nv)]
-    g = CGen(r, kinds, max_depth=depth, free_levels=1 if free_bound else 0)
+    g = CGen(r, kinds, pvar=0.6, max_depth=depth, free_levels=1 if free_bound else 0)
     small = CGen(r, kinds, max_depth=2, pvar=0.6, aliases=False, dyn=False, fnptr=r.random() < 0.2)
     rels = []
     for _ in range(r.choice([0, 0, 0, 1, 1, 2, 3]) if nv else 0):
@@ -216,6 +216,18 @@ def canon_of(res):
 # the check
 # ---------------------------------------------------------------------------------------------
 
+def coq_mismatches(*a, **kw):
+    """core.coq_mismatches, retried once after rebuilding our .vo files when the shared Coq tree was
+    rebuilt underneath us by a concurrent make ("inconsistent assumptions")."""
+    try:
+        return core.coq_mismatches(*a, **kw)
+    except core.CheckFailure as e:
+        if "inconsistent assumptions" not in str(e):
+            raise
+        core.coq_make(["Props/C16.vo", "Infer/Exec.vo"])
+        return core.coq_mismatches(*a, **kw)
+
+
 def load_corpus():
     out = []
     d = os.path.join(core.VERIF, "corpus", "C16")
@@ -281,6 +293,15 @@ def property_on_impl(ctx, tag, csx, res, viol):
     cu = [b[1] for b in ubs] + placeholder_universes(uval)
     if any(u >= n for u in cu):
         bad("u-canonical value mentions a universe >= its universe count", ucanonical=Pair(ubs, uval))
+    iv = res["invert"]
+    if not is_panic(iv):
+        gave_up = iv[1] == "None"
+        if gave_up != (len(frees) > 0):
+            bad("invert must refuse exactly the values with unbound inference variables", invert=iv, frees=frees)
+        if not gave_up:
+            ib, ival = iv[1][1][0], iv[1][1][1]
+            if any(isinstance(t, tuple) and t[0] == "Node" and isinstance(t[1], tuple) and t[1][0] in ("HPlaceholder", "HLPlaceholder") for t in irgen.subterms(ival)):
+                bad("invert left a type / lifetime placeholder in the value", invert=iv)
     bk = res["back"]
     if is_panic(bk) or (bk[1], bk[2]) != (bs, val):
         bad("map_from_canonical(u_canonicalize(c)) differs from c", canonical=Pair(bs, val), mapped_back=bk if is_panic(bk) else Pair(bk[1], bk[2]))
@@ -288,7 +309,8 @@ def property_on_impl(ctx, tag, csx, res, viol):
 
 def run(ctx):
     ok, why = ctx.proof_stage("Props.C16", ["canon_first_occurrence", "canon_iff_renaming", "canon_instantiate_canon",
-                                             "ucanon_order_preserving", "ucanon_roundtrip", "ucanon_roundtrip_refuted"],
+                                             "ucanon_order_preserving", "ucanon_roundtrip", "ucanon_roundtrip_refuted",
+                                             "invert_gives_up", "invert_no_placeholders"],
                               extra_targets=["Infer/Exec.vo"])
     core.build_harness(bins=["canon"])
     r = ctx.rng
@@ -335,7 +357,7 @@ def run(ctx):
     # ---- stage A: the property on the implementation alone -----------------------------------
     for (tag, csx, meta), res in zip(cases, results):
         nontrivial = not is_panic(res["canon"]) and len(res["canon"][1]) >= 1
-        ctx.count(tag, sx.to_sexp(csx), nontrivial=nontrivial or tag in ("corpus", "malformed"))
+        ctx.count(tag, tag + sx.to_sexp(csx), nontrivial=nontrivial or tag in ("corpus", "malformed"))
         if "Panicked" in res["opres"]:
             continue
         property_on_impl(ctx, tag, csx, res, viol)
@@ -368,7 +390,7 @@ def run(ctx):
                 ctx.violation({"kind": "property", "what": "free variables are not listed in order of first occurrence with their kinds and universes",
                                "case": sx.to_sexp(csx), "expected_order": order, "free_vars": frees, "binders": sx.to_sexp(bs)})
             viol[0] += 1
-        ctx.count("first-occurrence-direct", sx.to_sexp(csx), nontrivial=len(order) >= 2)
+        ctx.count("first-occurrence-direct", "fod" + sx.to_sexp(csx), nontrivial=len(order) >= 2)
 
     # non-renamings: merge two distinct unbound classes / move a variable to another universe
     neg = []
@@ -402,7 +424,7 @@ def run(ctx):
         if res is None:
             raise core.CheckFailure("harness could not run case %s: %s" % (sx.to_sexp(csx)[:300], o))
         bsx, bres = by_base[i]
-        ctx.count(tag, sx.to_sexp(csx), nontrivial=True)
+        ctx.count(tag, tag + sx.to_sexp(csx), nontrivial=True)
         if canon_of(res) == canon_of(bres):
             if viol[0] < 4:
                 ctx.violation({"kind": "property", "what": "two values that do not differ by a kind/universe-preserving renaming (%s) have the same canonical form" % tag,
@@ -412,14 +434,25 @@ def run(ctx):
         ctx.sample({"family": c[0], "case": sx.to_sexp(c[1])[:700]})
 
     # ---- stage B: model == implementation ------------------------------------------------------
-    imports = ["Ir.Syntax", "Ir.Fold", "Infer.Canon", "Infer.UCanon", "Infer.Answer", "Infer.Exec"]
+    imports = ["Ir.Syntax", "Ir.Fold", "Infer.Canon", "Infer.UCanon", "Infer.Answer", "Infer.Invert", "Infer.Exec"]
     sel = [(csx, res) for (tag, csx, meta), res in zip(cases, results) if tag in ("corpus", "base", "malformed") and "Panicked" not in res["opres"]]
-    canon_pairs, uc_pairs, back_pairs, probe_pairs, rec_pairs = [], [], [], [], []
+    canon_pairs, uc_pairs, back_pairs, probe_pairs, rec_pairs, inv_pairs = [], [], [], [], [], []
+    tstats = {"tables_with_bound_variables": 0, "tables_with_merged_classes": 0, "relates_ok": 0, "relates_failed": 0}
+    for csx, res in sel:
+        if any(e[1][0] == "Bound" for e in res["table"]):
+            tstats["tables_with_bound_variables"] += 1
+        if any(e[0] != i and e[1][0] == "Unbound" for i, e in enumerate(res["table"])):
+            tstats["tables_with_merged_classes"] += 1
+        tstats["relates_ok"] += sum(1 for o in res["opres"] if o == "Ok")
+        tstats["relates_failed"] += sum(1 for o in res["opres"] if o == "Fail")
+    ctx.cov.update(tstats)
     for csx, res in sel:
         T = res["table"]
         term = csx[2]
         c = res["canon"]
         canon_pairs.append((Pair(T, term), ("Panics", "OtherPanic") if is_panic(c) else ("Done", Pair(Pair(c[1], c[2]), c[3])), csx))
+        iv = res["invert"]
+        inv_pairs.append((Pair(T, term), ("Panics", "OtherPanic") if is_panic(iv) else ("Done", "None" if iv[1] == "None" else ("Some", iv[1][1])), csx))
         if is_panic(c):
             continue
         can = Pair(c[1], c[2])
@@ -435,6 +468,7 @@ def run(ctx):
         rc = res["recanon"]
         rec_pairs.append((Pair(T, can), ("Panics", "OtherPanic") if is_panic(rc) else ("Done", Pair(rc[1], rc[2])), csx))
     specs = [
+        ("invert_then_canonicalize", inv_pairs, "(fun p => run_invert %d (fst p) (snd p))" % FUEL, "(out_eqb (option_eqb canonical_eqb))", "table * tm", "out (option canonical)"),
         ("canonicalize", canon_pairs, "(fun p => run_canon %d (fst p) (snd p))" % FUEL, "(out_eqb canonicalized_eqb)", "table * tm", "out (canonical * fvs)"),
         ("u_canonicalize", uc_pairs, "u_canonicalize", "(res_any_eqb ucanonicalized_eqb)", "canonical", "res ucanonicalized"),
         ("map_from_canonical", back_pairs, "(fun p => map_from_canonical (fst p) (snd p))", "(res_any_eqb canonical_eqb)", "umap * canonical", "res canonical"),
@@ -443,7 +477,7 @@ def run(ctx):
     ]
     mism = 0
     for name, pairs, fn, eqb, ity, oty in specs:
-        bad = core.coq_mismatches(ctx.work, name.replace("+", "_"), imports, fn=fn, eqb=eqb, in_ty=ity, out_ty=oty,
+        bad = coq_mismatches(ctx.work, name.replace("+", "_"), imports, fn=fn, eqb=eqb, in_ty=ity, out_ty=oty,
                                   pairs=[(a, b) for a, b, _ in pairs], shard=ctx.n(120, 500))
         ctx.cov["families"].setdefault("model==impl:" + name, {"cases": len(pairs), "nontrivial": len(pairs)})["mismatches"] = len(bad)
         for j in bad[:2]:
